@@ -47,6 +47,10 @@ func (ec *evalCtx) oblige(kind string, goal *Term, pos token.Pos, note string) {
 		// generated closures: the safety sweep would judge user expressions embedded in the template
 		return
 	}
+	if ec.fc.c != nil && ec.fc.c.FromTemplate {
+		// default contract of a methods block: only what the block states is claimed (no panic-freedom sweep)
+		return
+	}
 	ec.fc.oblige(ec.st, kind, goal, pos, note)
 }
 
